@@ -3,7 +3,7 @@
 Three layers (see NOTES/C01.md):
   oracle         gen_pkgs modules -> real mockery -> Go toolchain type-checks every written file in its
                  destination package, over templates x formatters x placements x template-data options
-  translator     goskel extracts the scoping skeleton of every written file; the Coq kernel re-checks
+  translator     goscope extracts the scoping skeleton of every written file; the Coq kernel re-checks
                  wf_file extracted = true on every run
   correspondence a probe template dumps the template data model of the same configuration; the Coq model
                  (Gen/Skeleton.v: testify_skel / matryer_skel) builds the skeleton from it; it must equal the
@@ -21,10 +21,9 @@ PLACEMENTS = ["inpkg", "testpkg", "separate"]
 TESTIFY_PATH = "github.com/stretchr/testify/mock"
 
 # ---- guard lists: mirror coq/Gen/Skeleton.v (tf_taboo, mt_taboo, tmpl_var_names); compared with Coq on every run
-TF_TABOO = ["_mock", "_e", "tmpRet", "_va", "_i", "_ca", "returnFunc", "ok", "len", "make", "append", "panic", "nil", "mock"]
+TF_TABOO = ["_mock", "_e", "tmpRet", "_va", "_i", "_ca", "len", "make", "append", "panic", "nil", "mock"]
 MT_TABOO = ["mock", "callInfo", "append", "nil", "panic"]
-TMPL_VARS = {"testify": ["_mock", "_m", "_e", "_c", "t", "mock", "tmpRet", "_va", "_i", "_ca", "returnFunc", "ok", "run", "args",
-                         "variadicArgs", "i", "a"],
+TMPL_VARS = {"testify": ["_mock", "_m", "_e", "_c", "t", "mock", "tmpRet", "_va", "_i", "_ca", "run", "args", "variadicArgs", "i", "a"],
              "matryer": ["mock", "callInfo", "calls"]}
 # exported methods and fields of testify's mock.Mock v1.10.0 plus the generated EXPECT: the mock's own API
 TESTIFY_API = {"EXPECT", "Mock", "On", "Called", "MethodCalled", "Test", "TestData", "AssertExpectations", "AssertCalled",
@@ -219,7 +218,7 @@ def parse_probe(text):
 
 
 def resolve_types(ctx, pd):
-    """Attach goskel's view of every rendered type string of the probe data."""
+    """Attach goscope's view of every rendered type string of the probe data."""
     todo, slots = [], []
 
     def want(holder, key, s, con):
@@ -233,18 +232,43 @@ def resolve_types(ctx, pd):
                 want(p, "u", p["ty"], False)
     if not todo:
         return
-    p = run([ctx.bins["goskel"], "types"], inp=json.dumps(todo).encode(), timeout=120)
+    p = run([ctx.bins["goscope"], "types"], inp=json.dumps(todo).encode(), timeout=120)
     if p.returncode != 0:
-        raise RuntimeError("goskel types failed: " + p.stderr.decode(errors="replace")[-2000:])
+        raise RuntimeError("goscope types failed: " + p.stderr.decode(errors="replace")[-2000:])
     for (h, k), u in zip(slots, json.loads(p.stdout)):
         h[k] = u
 
 
-def type_idents(m, tparams):
-    q, b = set(), set()
-    for p in m["params"] + m["results"]:
-        q |= set(p["u"]["quals"]); b |= set(p["u"]["bare"])
-    return q, b
+IDENT_RE = re.compile(r"^[A-Za-z_][A-Za-z0-9_]*$")
+
+
+def suggest(visible, prefix):
+    """MethodScope.SuggestName"""
+    k, s = 0, prefix
+    while s in visible:
+        k += 1
+        s = "%s%d" % (prefix, k)
+    return s
+
+
+def method_visible(pd, m):
+    """Over-approximation of the method scope's visible names that is exact on every name the template allocates:
+    resolved variable names, rendered type strings, import qualifiers."""
+    return [p["name"] for p in m["params"] + m["results"]] + [p["ty"] for p in m["params"] + m["results"]] + [q for _, q in pd["imports"]]
+
+
+def testify_allocated(pd, m):
+    """Names the (fixed) testify template allocates in the method scope, in template order."""
+    vis = list(method_visible(pd, m))
+    out = {"ret": None, "rf": None, "ok": None, "args": []}
+    if m["results"]:
+        for k, pre in (("ret", "ret"), ("rf", "returnFunc"), ("ok", "ok")):
+            out[k] = suggest(vis, pre); vis.append(out[k])
+    ps = m["params"][:-1] if (m["params"] and m["params"][-1]["variadic"]) else m["params"]
+    for i, p in enumerate(ps):
+        if p["nil"]:
+            a = suggest(vis, "arg%d" % i); vis.append(a); out["args"].append(a)
+    return out
 
 
 def guards_of(pd, cfg):
@@ -252,45 +276,61 @@ def guards_of(pd, cfg):
     The Coq evaluation in the generated case files is authoritative; this one only steers the generators."""
     tmpl, opts = cfg["template"], cfg["opts"]
     quals = [q for _, q in pd["imports"]]
+    off = set(os.environ.get("C01_NOGUARD", "").split(","))      # development aid only
     out = {}
     for i in pd["ifaces"]:
         g = []
         torig = [t["orig"] for t in i["tparams"]]
-        if any(t["orig"] != t["decl"] for t in i["tparams"]):
+        tdecl = [t["decl"] for t in i["tparams"]]
+        if torig != tdecl:
             g.append("c14-tparam-renamed")
+        cq, cb = set(), set()
+        for t in i["tparams"]:
+            cb |= set(t["con_u"]["bare"]); cq |= set(t["con_u"]["quals"])
         if tmpl == "matryer" and not opts.get("skip-ensure"):
-            if pd["srcq"] and (pd["srcname"] not in quals or dict((q, p) for p, q in pd["imports"]).get(pd["srcname"]) != cfg["src_path"]):
+            if pd["srcq"] and pd["srcname"] not in quals:
                 g.append("mt-ensure-import")
             for t in i["tparams"]:
                 u = t["ens_u"]
-                if not u["ok"] or "comparable" in u["bare"] or set(u["bare"]) & set(torig):
+                if not u["ok"] or set(u["bare"]) & (set(torig) | {"comparable"}):
                     g.append("mt-ensure-generic")
+        tvars = set(TMPL_VARS[tmpl])
+        if (cq | cb | set(tdecl)) & tvars:
+            g.append("type-named-like-template-local")
         for m in i["methods"]:
             pn = [p["name"] for p in m["params"]]
             rn = [r["name"] for r in m["results"]]
-            q, b = type_idents(m, torig)
-            for t in i["tparams"]:
-                b |= set(t["con_u"]["bare"]); q |= set(t["con_u"]["quals"])
-            if (set(pn) | set(rn)) & (q | b | set(torig)):
+            if not all(IDENT_RE.match(n) for n in pn + rn):
+                g.append("c14-invalid-varname")
+            q, b = set(cq), set(cb)
+            for p in m["params"] + m["results"]:
+                q |= set(p["u"]["quals"]); b |= set(p["u"]["bare"])
+            idents = q | b | set(tdecl)
+            if (set(pn) | set(rn)) & idents:
                 g.append("c14-capture")
-            tv = set(TMPL_VARS[tmpl]) | ({m["ret"]} | {"r%d" % k for k in range(len(rn))} if tmpl == "testify" else set())
-            if (q | b | set(torig)) & tv:
-                g.append("type-named-like-template-local")
+            rnames = {"r%d" % k for k in range(len(rn))}
             if tmpl == "testify":
-                if set(pn) & (set(TF_TABOO) | {"r%d" % k for k in range(len(rn))}):
+                al = testify_allocated(pd, m)
+                tv = tvars | rnames | {al["ret"], al["rf"], al["ok"]} | set(al["args"])
+                if idents & tv:
+                    g.append("type-named-like-template-local")
+                if set(pn) & (set(TF_TABOO) | rnames):
                     g.append("tf-param-local")
                 if "_c" in rn:
                     g.append("tf-result-local")
-                if m["params"] and m["params"][-1]["variadic"] and len(rn) >= 2 and opts.get("unroll-variadic") is True \
-                        and not envflag("C01_VARIADIC_MULTI"):
-                    g.append("c03-variadic-multi")
+                variadic = bool(m["params"]) and m["params"][-1]["variadic"]
+                if variadic and opts.get("unroll-variadic") is True and len(rn) != 1 and not envflag("C01_VARIADIC_MULTI"):
+                    g.append("c03-variadic")          # >= 2 results (row 13) or 0 results (glued statement)
+                if set(pn) & {"ok", "returnFunc"} and not envflag("C01_C03_LOCALS"):
+                    g.append("c03-param-local")
             else:
+                if idents & tvars:
+                    g.append("type-named-like-template-local")
                 if set(pn) & set(MT_TABOO):
                     g.append("mt-param-local")
                 ex = [p["exp"] for p in m["params"]]
                 if len(set(ex)) != len(ex):
                     g.append("mt-field-collision")
-        off = set(os.environ.get("C01_NOGUARD", "").split(","))      # development aid only
         out[i["name"]] = sorted(set(g) - off)
     return out
 
@@ -396,7 +436,7 @@ def run_config(ctx, cfg):
     res["source"] = of.read_text(errors="replace")
     pn = root / "pkgnames.json"
     pn.write_text(json.dumps(cfg["pkgnames"]))
-    p = run([ctx.bins["goskel"], "file", str(out_dir), fn, str(pn)], timeout=120)
+    p = run([ctx.bins["goscope"], "file", str(out_dir), fn, str(pn)], timeout=120)
     if p.returncode == 0:
         res["skel"] = json.loads(p.stdout)
     else:
@@ -464,3 +504,299 @@ def make_configs(rng, modules, thorough):
             else:
                 c["candidates"].append(i["name"])
     return cfgs
+
+
+def witness_configs(start_id):
+    f = CORPUS / "witnesses.json"
+    if not f.exists():
+        return []
+    cfgs = []
+    for k, w in enumerate(json.loads(f.read_text())):
+        pk = {gen_pkgs.MOD + "/ext5/mock": "mock", TESTIFY_PATH: "mock", "sync": "sync", "fmt": "fmt", "unsafe": "unsafe",
+              gen_pkgs.MOD + "/src": "src"}
+        cfgs.append({"id": start_id + k, "files": w["files"], "template": w["template"], "formatter": "gofmt", "placement": w["placement"],
+                     "opts": dict(w["opts"]), "filename": "mocks_test.go", "src_name": "src", "src_path": gen_pkgs.MOD + "/src",
+                     "pkgnames": pk, "stream": "witness", "witness": w, "candidates": list(w["interfaces"]), "outside": {}})
+    return cfgs
+
+
+# =========================================================================================
+# Gallina terms
+# =========================================================================================
+KIND = {"Q": "KQual", "T": "KType", "C": "KCon", "V": "KVal"}
+MODS = "Gen.Alloc Gen.Skeleton Harness.C01"
+
+
+def item_term(it):
+    if it[0] == "u":
+        return "IUse %s %s" % (KIND[it[1]], coq_bytes(it[2]))
+    if it[0] == "d":
+        return "IDecl %s %s" % ("true" if it[1] == "t" else "false", coq_bytes(it[2]))
+    return "IBlock %s" % items_term(it[1])
+
+
+def items_term(l):
+    return coq_list(item_term(i) for i in l)
+
+
+def strs(l):
+    return coq_list(coq_bytes(x) for x in l)
+
+
+TK = {"type": "TType", "var": "TVar", "func": "TFunc", "method": "TMethod"}
+
+
+def skel_term(sk):
+    tops = coq_list("mk_top %s %s %s %s" % (TK[t["kind"]], coq_bytes(t["name"]), coq_bytes(t["recv"]), items_term(t["items"])) for t in sk["tops"])
+    return "{| s_imports := %s; s_other_types := %s; s_other_vals := %s; s_tops := %s |}" % (
+        coq_list("(%s, %s)" % (coq_bytes(i["path"]), coq_bytes(i["qual"])) for i in sk["imports"]),
+        strs(sk["other_types"]), strs(sk["other_values"]), tops)
+
+
+def ty_term(u):
+    return items_term(u["items"])
+
+
+def fdata_term(pd, sk):
+    ifs = []
+    for i in pd["ifaces"]:
+        tps = coq_list("{| tdecl := %s; torig := %s; tcon := %s; tens := %s |}" % (
+            coq_bytes(t["decl"]), coq_bytes(t["orig"]),
+            ty_term(t["con_u"]) if t["con_u"]["ok"] else '[IUse KCon (B "<not a type>")]',
+            coq_opt(t["ens_u"] if t["ens_u"]["ok"] else None, ty_term)) for t in i["tparams"])
+        ms = []
+        for m in i["methods"]:
+            ps = coq_list("{| pn := %s; pexp := %s; pty := %s; pvariadic := %s; pany := %s; pnil := %s |}" % (
+                coq_bytes(p["name"]), coq_bytes(p["exp"]), ty_term(p["u"]), coq_bool(p["variadic"]),
+                coq_bool(p["variadic"] and p["ty"] in ("[]interface{}", "[]any")), coq_bool(p["nil"])) for p in m["params"])
+            rs = coq_list("{| rn := %s; rty := %s; riserr := %s; rnil := %s |}" % (
+                coq_bytes(r["name"]), ty_term(r["u"]), coq_bool(r["ty"] == "error"), coq_bool(r["nil"])) for r in m["results"])
+            ms.append("{| mn := %s; mps := %s; mrs := %s; mvisible := %s |}" % (coq_bytes(m["name"]), ps, rs, strs(method_visible(pd, m))))
+        ifs.append("{| ifname := %s; ifstruct := %s; iftps := %s; ifms := %s |}" % (coq_bytes(i["name"]), coq_bytes(i["struct"]), tps, coq_list(ms)))
+    return "{| f_inpkg := %s; f_srcname := %s; f_imports := %s; f_ifaces := %s; f_other_types := %s; f_other_vals := %s |}" % (
+        coq_bool(pd["srcq"] == ""), coq_bytes(pd["srcname"]),
+        coq_list("(%s, %s)" % (coq_bytes(p), coq_bytes(q)) for p, q in pd["imports"]), coq_list(ifs),
+        strs(sk["other_types"]), strs(sk["other_values"]))
+
+
+def tmpl_term(cfg):
+    o = cfg["opts"]
+    if cfg["template"] == "testify":
+        return "Testify {| unroll := %s |}" % coq_bool(o.get("unroll-variadic") is True)
+    return "Matryer {| skip_ensure := %s; stub_impl := %s; with_resets := %s |}" % (
+        coq_bool(bool(o.get("skip-ensure"))), coq_bool(bool(o.get("stub-impl"))), coq_bool(bool(o.get("with-resets"))))
+
+
+def case_term(cfg, res):
+    return "{| c_tmpl := %s; c_data := %s; c_ext := %s |}" % (tmpl_term(cfg), fdata_term(res["probe"], res["skel"]), skel_term(res["skel"]))
+
+
+def coq_verdict(ctx, term, name):
+    """check_case on one case, parsed."""
+    flat = coq_show(ctx, MODS, "check_case (%s)" % term, name=name)
+    v = {}
+    for k in ("v_guards", "v_data", "v_names", "v_wf_model", "v_wf_ext"):
+        m = re.search(k + r" := (true|false)", flat)
+        v[k] = (m.group(1) == "true") if m else None
+    for k in ("v_model_fail", "v_ext_fail", "v_diff"):
+        m = re.search(k + r" := \[(.*?)\]", flat)
+        v[k] = [int(x.replace("%nat", "")) for x in m.group(1).split(";") if x.strip()] if m else None
+    if any(x is None for x in v.values()):
+        v["raw"] = flat[:1500]
+    return v
+
+
+# =========================================================================================
+# check
+# =========================================================================================
+def describe(cfg, res=None):
+    d = {"template": cfg["template"], "formatter": cfg["formatter"], "placement": cfg["placement"], "template-data": cfg["opts"],
+         "filename": cfg.get("filename"), "stream": cfg["stream"]}
+    if res is not None:
+        d.update(interfaces=res.get("names"), stage=res.get("stage"), errors=res.get("errors", [])[:8], excluded=res.get("excluded"))
+    return d
+
+
+def sources_of(cfg):
+    if cfg.get("files") is not None:
+        return cfg["files"]
+    return gen_pkgs.src_files(cfg["module"])
+
+
+def shrink_interfaces(ctx, cfg, res):
+    """Smallest set of interfaces (then of methods is not attempted: the AST is kept intact) that still fails."""
+    names = list(res.get("names") or [])
+    k = 0
+
+    def fails(ns):
+        nonlocal k
+        k += 1
+        c = dict(cfg, candidates=ns, id=900000 + cfg["id"] * 100 + k, no_probe=True, opts=dict(cfg["opts"]))
+        r = run_config(ctx, c)
+        return bool(r.get("errors")) or r["stage"] == "mockery-failed", r
+    best = res
+    i = 0
+    while i < len(names) and len(names) > 1:
+        cand = names[:i] + names[i + 1:]
+        bad, r = fails(cand)
+        if bad:
+            names, best = cand, r
+        else:
+            i += 1
+    return names, best
+
+
+def check(ctx, only=None):
+    known = load_known("C01")
+    gate = proof_gate(ctx)
+    if not ctx.build_tree(drivers=["goscope"]):
+        ctx.write_evidence(gate, 0, 0, "build failed", [])
+        return
+    thorough = ctx.thorough()
+    if only is not None:
+        cfgs = only
+    else:
+        nmod = int(os.environ.get("C01_MODULES", "40" if thorough else "6"))
+        modules = [gen_module(ctx.rng, k) for k in range(nmod)]
+        cfgs = make_configs(ctx.rng, modules, thorough and nmod <= 12)
+        if envflag("C01_GOMOD_SPELLINGS"):           # owned by C09 (DESIGN row 3); off by default
+            for k, c in enumerate(cfgs):
+                if c["placement"] == "inpkg" and k % 4 == 0:
+                    c["gomod_line"] = ['module "%s"' % gen_pkgs.MOD, "module %s // comment" % gen_pkgs.MOD, "module (\n\t%s\n)" % gen_pkgs.MOD][k % 3]
+        cfgs += witness_configs(len(cfgs))
+    results = pmap(lambda c: run_config(ctx, c), cfgs)
+    main = [(c, r) for c, r in zip(cfgs, results) if c["stream"] == "main"]
+    wit = [(c, r) for c, r in zip(cfgs, results) if c["stream"] == "witness"]
+
+    # ---------------- oracle: every written file type-checks in its destination package
+    oracle_fail = [(c, r) for c, r in main if r["stage"] in ("mockery-failed", "probe-failed", "guards-unstable") or r.get("errors") or (r["stage"] == "done" and r.get("go_rc"))]
+    for c, r in oracle_fail[:3]:
+        names, small = (r.get("names"), r)
+        if r["stage"] in ("done", "mockery-failed") and r.get("names"):
+            names, small = shrink_interfaces(ctx, c, r)
+        rp = ctx.write_replay("oracle-%d" % c["id"], {
+            "what": "a file written by mockery does not type-check in its destination package (or mockery failed to write it)",
+            "config": describe(c, r), "interfaces": names, "errors": small.get("errors", [])[:12], "mockery_log": small.get("mockery_log"),
+            "sources": sources_of(c), "generated": (small.get("source") or "")[:20000],
+            "case": {"files": sources_of(c), "template": c["template"], "formatter": c["formatter"], "placement": c["placement"], "opts": c["opts"],
+                     "filename": c.get("filename"), "src_name": c["src_name"], "src_path": c["src_path"], "pkgnames": c["pkgnames"], "interfaces": names}})
+        ctx.violation(rp)
+
+    # ---------------- translator + correspondence inside Coq
+    done = [(c, r) for c, r in main if r["stage"] == "done" and not r.get("errors") and r.get("skel") and r.get("probe")]
+    terms = [case_term(c, r) for c, r in done]
+    bad, errs = coq_mismatches(ctx, MODS, terms, shard=6) if terms else ([], [])
+    skel_errors = [(c, r) for c, r in main if r["stage"] == "done" and not r.get("skel")]
+    if not gate["ok"] and not oracle_fail:
+        ctx.violation(gate["replay"], nofail=True)
+    if (bad or errs or skel_errors) and not oracle_fail:
+        detail = []
+        for k in bad[:3]:
+            c, r = done[k]
+            detail.append({"config": describe(c, r), "verdict": coq_verdict(ctx, terms[k], "verdict_%d" % k), "sources": sources_of(c),
+                           "generated": r.get("source", "")[:20000]})
+        rp = ctx.write_replay("correspondence", {
+            "what": "the model skeleton (Gen/Skeleton.v) or the scoping judgement disagrees with the files the templates wrote; "
+                    "the Go type checker accepted all %d written files" % len(done),
+            "obligation": "Harness/C01.v case_ok: guards, data_ok, file_names_ok, wf_file model, wf_file extracted (translator lemma), skel_diff = []",
+            "mismatching_cases": len(bad), "coq_errors": errs, "goscope_errors": [r.get("skel_error") for _, r in skel_errors][:3], "examples": detail})
+        ctx.violation(rp, nofail=True)
+
+    # ---------------- witness stream: every known-finding class still fails with its listed symptom
+    kf_ids = {k["id"]: k for k in known}
+    wit_report = []
+    wterms, wdone = [], []
+    for c, r in wit:
+        w = c["witness"]
+        entry = kf_ids.get(w["class"])
+        text = "\n".join(r.get("errors", []))
+        ok = entry is not None and bool(r.get("errors")) and re.search(w["symptom"], text) and re.search(entry["symptom"], text)
+        wit_report.append({"id": w["id"], "class": w["class"], "symptom_seen": r.get("errors", [])[:3], "as_listed": bool(ok)})
+        if ok:
+            ctx.known("%s witness=%s: %s" % (w["class"], w["id"], r["errors"][0][:160]))
+        else:
+            rp = ctx.write_replay("known-finding-changed-%s" % w["id"], {
+                "what": "known finding %s: the listed symptom no longer appears for its witness (fixed, or fails differently)" % w["class"],
+                "expected_symptom": w["symptom"], "observed": r.get("errors", [])[:8], "stage": r.get("stage"), "mockery_log": r.get("mockery_log"),
+                "config": describe(c, r), "sources": c["files"], "obligation": "known/C01.json entry %s" % w["class"]})
+            ctx.violation(rp, nofail=not r.get("errors"))
+        if r.get("probe") and r.get("skel") and w.get("skeleton_visible"):
+            wterms.append(case_term(c, r)); wdone.append(w)
+    # the Coq guards must put every witness inside its class (guards = false), and where the failure is a scoping
+    # failure the judgement must see it on the extracted skeleton as well
+    wbad = []
+    if wterms:
+        rc, out, err = coq_eval(ctx, "witness_guards", "From Mk Require Import Lib.Bytes %s." % MODS,
+                                "Definition cases := [\n%s\n]." % ";\n".join(wterms),
+                                "Definition G := Eval vm_compute in (map (fun c => (guards c, wf_file (model c), wf_file (c_ext c))) cases).\nPrint G.")
+        flat = " ".join(out.split())
+        trip = re.findall(r"\((true|false), (true|false), (true|false)\)", flat)
+        if rc != 0 or len(trip) != len(wterms):
+            wbad.append("coqc failed on the witness cases: " + (err[-800:] or flat[:300]))
+        else:
+            for w, (g, wm, we) in zip(wdone, trip):
+                if g == "true":
+                    wbad.append("witness %s is outside the Coq guards (guards = true)" % w["id"])
+            for rep in wit_report:
+                for w, (g, wm, we) in zip(wdone, trip):
+                    if w["id"] == rep["id"]:
+                        rep.update(coq_guards=g, coq_wf_model=wm, coq_wf_extracted=we)
+    if wbad and not oracle_fail:
+        rp = ctx.write_replay("witness-guards", {"what": "Coq guard predicates and the witness stream disagree", "problems": wbad,
+                                                 "obligation": "Harness/C01.v guards on corpus/C01/witnesses.json"})
+        ctx.violation(rp, nofail=True)
+
+    # ---------------- evidence
+    hist = {"template": {}, "formatter": {}, "placement": {}, "option": {}, "filename": {}, "excluded_by_guard": {}, "outside_guarantee": {},
+            "stage": {}, "types": {}}
+    seen_mod = set()
+    n_ifaces = n_methods = 0
+    for c, r in main:
+        for k in ("template", "formatter", "placement"):
+            hist[k][c[k]] = hist[k].get(c[k], 0) + 1
+        for o, v in c["opts"].items():
+            key = "%s=%s" % (o, v if isinstance(v, bool) else "set")
+            hist["option"][key] = hist["option"].get(key, 0) + 1
+        if c["placement"] == "inpkg":
+            hist["filename"][c["filename"]] = hist["filename"].get(c["filename"], 0) + 1
+        for k, v in r["excluded"].items():
+            hist["excluded_by_guard"][k] = hist["excluded_by_guard"].get(k, 0) + v
+        for k, v in c["outside"].items():
+            hist["outside_guarantee"][k] = hist["outside_guarantee"].get(k, 0) + v
+        hist["stage"][r["stage"]] = hist["stage"].get(r["stage"], 0) + 1
+        if c.get("module") is not None and id(c["module"]) not in seen_mod:
+            seen_mod.add(id(c["module"])); type_hist(c["module"], hist["types"])
+        if r.get("probe"):
+            n_ifaces += len(r["probe"]["ifaces"]); n_methods += sum(len(i["methods"]) for i in r["probe"]["ifaces"])
+    distinct = len({json.dumps([c["template"], c["formatter"], c["placement"], c["opts"], r.get("names"), sorted(sources_of(c).items())], sort_keys=True, default=str)
+                    for c, r in done if sum(len(i["methods"]) for i in r["probe"]["ifaces"]) > 0})
+    gate = dict(gate)
+    gate["obligations"] += len(terms)
+    gate["discharged"] += (len(terms) - len(bad)) if gate["ok"] and not errs else 0
+    gate["trusted_extra"] = [
+        "Go toolchain (go build / go test -run '^$') as the oracle for expression typing inside template bodies, which the skeleton judgement does not formalise",
+        "harness/go/goscope (stdlib go/parser) as translator from written Go files to skeleton terms; harness/probes/c01_probe.templ as the dump of the template data model",
+        "the template data model itself (names after collision resolution, rendered types, imports) is an INPUT of the skeleton models: its faithfulness is C14/C15's claim"]
+    samples = [dict(describe(c, r), first_lines=(r.get("source") or "").split("\n")[:12]) for c, r in done[:2]]
+    ctx.write_evidence(gate, len(main) + len(wit), distinct,
+                       "one evaluation = one mockery configuration (module x template x formatter x placement x template-data) run through "
+                       "probe, real template, Go type checker, goscope and the Coq case check; non-trivial = at least one method mocked; "
+                       "distinct by (configuration, selected interfaces, source files)",
+                       samples,
+                       extra={"histogram": hist, "mocked_interfaces": n_ifaces, "mocked_methods": n_methods, "oracle_failures": len(oracle_fail),
+                              "model_mismatches": len(bad), "translator_lemmas_checked": len(terms), "witnesses": wit_report,
+                              "switches": {k: envflag(k) for k in ("C01_VARIADIC_MULTI", "C01_C03_LOCALS", "C01_GOMOD_SPELLINGS")}},
+                       assumptions=["go.mod is written in the plain spelling `module example.com/m` (other spellings: property C09, switch C01_GOMOD_SPELLINGS=1)",
+                                    "template-data is set at the top level of the configuration (per-level inheritance: property C08)"])
+
+
+def replay(ctx, path):
+    d = json.loads(open(path).read())
+    if "case" not in d:
+        check(ctx)
+        return
+    k = d["case"]
+    cfg = {"id": 0, "files": k["files"], "template": k["template"], "formatter": k["formatter"], "placement": k["placement"], "opts": dict(k["opts"]),
+           "filename": k.get("filename") or "mocks_test.go", "src_name": k["src_name"], "src_path": k["src_path"], "pkgnames": k["pkgnames"],
+           "stream": "main", "candidates": list(k["interfaces"] or []), "outside": {}, "no_probe": True}
+    check(ctx, only=[cfg])
